@@ -267,6 +267,9 @@ type balAllow struct {
 type balConfig struct {
 	Handovers []*balDecl  `json:"handovers"`
 	Allowed   []*balAllow `json:"allowed"`
+	// round 7: blocking channel operations that may run under a lock (key
+	// function@channel), each with the reason why the wait ends (chanops.go)
+	BlockingOK []*balAllow `json:"blocking_ok"`
 }
 
 func readBalConfig(verif string) (*balConfig, error) {
@@ -293,6 +296,11 @@ func readBalConfig(verif string) (*balConfig, error) {
 	for _, d := range cfg.Allowed {
 		if strings.TrimSpace(d.Reason) == "" {
 			return nil, fmt.Errorf("%s: allowed item %s has no reason", path, d.Key)
+		}
+	}
+	for _, d := range cfg.BlockingOK {
+		if strings.TrimSpace(d.Reason) == "" {
+			return nil, fmt.Errorf("%s: blocking_ok item %s has no reason", path, d.Key)
 		}
 	}
 	return cfg, nil
